@@ -6,6 +6,7 @@ package main
 
 import (
 	"fmt"
+	"go/types"
 	"sort"
 	"strings"
 
@@ -153,6 +154,24 @@ func (v *Verifier) VerifyStructural(name string, propNames []string) *FuncResult
 		}
 		sort.Strings(bad)
 		mk(len(bad) == 0, fmt.Sprintf("no file-system mutating API is called except os.Create under --cpuprofile; offending: %v", bad))
+	case "no-map-iteration":
+		// Go randomises map iteration order: any `range` over a map in the
+		// module could make results or output depend on it (C17: repeated runs
+		// are byte-identical; C09: numbers do not depend on enumeration order).
+		var bad []string
+		for _, fn := range v.moduleFuncs() {
+			for _, b := range fn.Blocks {
+				for _, in := range b.Instrs {
+					if rg, ok := in.(*ssa.Range); ok {
+						if _, isMap := rg.X.Type().Underlying().(*types.Map); isMap {
+							bad = append(bad, fn.String()+" ("+v.posStr(rg.Pos())+")")
+						}
+					}
+				}
+			}
+		}
+		sort.Strings(bad)
+		mk(len(bad) == 0, fmt.Sprintf("no function of the module iterates over a map; offending: %v", bad))
 	default:
 		res.Unsupported = "unknown structural obligation " + name
 	}
